@@ -691,7 +691,11 @@ func (s *Scheduler) resolveSyncCommDuties(ctx context.Context, slot core.Slot, v
 			// Schedule sync committee contribution aggregation.
 			duty := core.NewSyncContributionDuty(sl.Slot)
 
-			s.setDutyDefinition(duty, slot.Epoch(), pubkey, core.NewSyncCommitteeDefinition(syncCommDuty))
+			// Clone before storing: the index slice belongs to the beacon client (duties cache).
+			dutyCopy := *syncCommDuty
+			dutyCopy.ValidatorSyncCommitteeIndices = slices.Clone(syncCommDuty.ValidatorSyncCommitteeIndices)
+
+			s.setDutyDefinition(duty, slot.Epoch(), pubkey, core.NewSyncCommitteeDefinition(&dutyCopy))
 		}
 
 		syncResolvedPubkeys = append(syncResolvedPubkeys, pubkey.String())
